@@ -294,17 +294,18 @@ def check_property(prop, tier, seed):
                 except Undecided as e:
                     cr_pre = e
             checker_cmds.append(ur["res"]["cmd"])
-            relevant_fail = [f for f in ur["fails"] if prop in f["tags"]]
-            other_fail = [f for f in ur["fails"] if prop not in f["tags"]]
+            ptags = {prop} | set(pcfg.get("extra_tags", []))
+            relevant_fail = [f for f in ur["fails"] if ptags & set(f["tags"])]
+            other_fail = [f for f in ur["fails"] if not (ptags & set(f["tags"]))]
             undecided += ur["undecided"]
             # obligations: AIR asserts of the functions tagged with this property
             for pf in ur["per_fn"]:
-                if prop in pf["tags"] and not pf["trusted"]:
+                if (ptags & set(pf["tags"])) and not pf["trusted"]:
                     obligations += pf["air_asserts"]
                     fn_reports.append(pf)
                     if not pf["verified"] and not any(f["item"] == pf["id"] for f in ur["fails"]):
                         undecided.append(f"function {pf['path']} was not verified and no obligation failure explains it")
-                elif prop in pf["tags"]:
+                elif ptags & set(pf["tags"]):
                     fn_reports.append(pf)
             nfail = len(relevant_fail)
             for f in relevant_fail:
